@@ -243,6 +243,10 @@ pub enum Ins {
   SkipIfOdd,
   /// acc := k
   Set(u8),
+  /// stop when acc is odd
+  EndIfOdd,
+  /// stop when acc is even
+  EndIfEven,
 }
 pub static mut PROG: [[Ins; NINS]; NTASK] = [[Ins::End; NINS]; NTASK];
 pub static mut EXEC_COUNT: [u8; NTASK] = [0; NTASK];
@@ -297,6 +301,8 @@ impl Task for P {
         }
         Ins::SkipIfOdd => { if acc & 1 == 1 { pc += 1; } }
         Ins::Set(k) => { acc = k; }
+        Ins::EndIfOdd => { if acc & 1 == 1 { break; } }
+        Ins::EndIfEven => { if acc & 1 == 0 { break; } }
       }
       pc += 1;
     }
@@ -318,6 +324,8 @@ pub fn ref_eval(id: usize, cells: &mut [Option<u8>; NCELL], depth: u8) -> u8 {
       Ins::Write(cell, _, k) | Ins::WrittenTo(cell, _, k) => { cells[(cell as usize) % NCELL] = Some(acc ^ k); }
       Ins::SkipIfOdd => { if acc & 1 == 1 { pc += 1; } }
       Ins::Set(k) => { acc = k; }
+      Ins::EndIfOdd => { if acc & 1 == 1 { break; } }
+      Ins::EndIfEven => { if acc & 1 == 0 { break; } }
     }
     pc += 1;
   }
